@@ -22,6 +22,7 @@ Definition reslow (c : cpc) : bool :=
   match c with
   | CInit0 | CInit1 | CTp3 _ _ _ _ | CTp4 _ _ _ _ | CTp5 _ _ | CTp6 _ _ _ | CTp7 _ _ _
   | CRes1 _ | CRes2 _ | CShut1 _ | CShut2 _ | CShut3 _ => true
+  | CShut0 KFinally => true     (* entered by an interrupt that cut a shutdown short *)
   | _ => false
   end.
 
